@@ -6,18 +6,18 @@ import checks
 
 ALL = ['C%02d' % i for i in range(1, 29)]
 NA = {
- 'C02': 'DHP: as C01, plus free-list-backed block allocators; not encoded',
- 'C08': 'SegmentedQueue needs the HP singleton encoded; not encoded',
- 'C10': 'FCDeque: flat-combining kernel (thread-local publication records via boost/std TLS, std::deque) beyond the translator; not encoded',
- 'C13': 'ordered lists over HP/DHP/RCU need the SMR singletons encoded; not encoded',
- 'C14': 'pointer-rich hash containers with growth under every interleaving: out of reach of bounded symbolic execution at useful bounds (DESIGN.md 6); addressing arithmetic is decided under C27/C28',
+ 'C02': 'DHP: guard blocks of 16 and retired blocks of 256 entries are compile-time constants and both come from free-list backed block allocators carved out of raw memory; the HP route (typed thread records + scan unit) does not transfer without rewriting those allocators, and a reclamation pass over 256-entry blocks is beyond the solver budget; not encoded',
+ 'C08': 'SegmentedQueue: segments are raw blocks (header + quasi_factor cells) allocated with a computed size; by the measured cost of MSQueue on the same HP environment (2 threads x 1 operation = 20 min) no useful bound is reachable; not encoded',
+ 'C10': 'FCDeque: needs the flat-combining kernel (boost::thread_specific_ptr publication records, wait strategies); not encoded',
+ 'C13': 'ordered lists: a harness over the real hazard-pointer environment was built (attic/c13_list.cpp.txt); even the sequential query with 2 solver-chosen calls on 2 keys ran into the 15 min cap / 16 GB (iterator + guard + marked-pointer code), so nothing is claimed',
+ 'C14': 'hash sets/maps during growth: built on the C13 lists (MichaelHashSet, SplitList) or on Feldman array nodes; out of reach for the same reason as C13; the addressing arithmetic is decided under C27/C28',
  'C15': 'skip lists / Ellen tree / Bronson AVL under every interleaving: out of reach (DESIGN.md 6)',
  'C16': 'cuckoo/striped sets with std::mutex lock arrays and resizes under every interleaving: out of reach (DESIGN.md 6)',
- 'C17': 'resize/rehash harness over CuckooSet/StripedSet (std::vector/list probe sets, allocator traffic) not built in the time available',
- 'C18': 'quiescent well-formedness after arbitrary histories needs the containers of C13-C15 encoded; not encoded',
- 'C19': 'thread-safe iterators need IterableList/FeldmanHashSet over HP encoded; not encoded',
- 'C20': 'reference-model comparison of every container variant: heap-backed containers with symbolic scripts are beyond reach at useful bounds; not encoded',
- 'C23': 'flat-combining kernel: thread-local publication records, std::mutex/condvar wait strategies; not encoded',
+ 'C17': 'resize/rehash of CuckooSet/StripedSet/SplitListSet/FeldmanHashSet: pointer-rich sequential scripts with symbolic hashes; by the C13 measurement (sequential list script of 2 calls: no verdict) out of reach; not encoded',
+ 'C18': 'quiescent well-formedness of lists/skip lists/trees: needs the containers of C13/C15 encoded; the MSPriorityQueue heap order at quiescence is checked under C11, the Treiber/MSQueue drains under C09/C06',
+ 'C19': 'thread-safe iterators: IterableList/FeldmanHashSet over HP, see C13',
+ 'C20': 'reference-model comparison of every container variant: sequential scripts are decided only for the structures claimed elsewhere (C07, C09, C11, C12 sequential queries, C21, C24); the list/tree/hash families are out of reach (C13)',
+ 'C23': 'flat-combining kernel: boost::thread_specific_ptr publication records and wait strategies (mutex/condvar) are outside the stub table; not encoded',
 }
 
 TEXT = {
